@@ -525,6 +525,7 @@ MANIFEST = dict(
          'the code\'s algorithm returns what the hit policy prescribes over exactly the satisfied rules (C03_policy_refines, all 11 policies/aggregators), FIRST = least index, '
          'RULE ORDER/COLLECT = filter-map in rule order, OUTPUT ORDER = stable sorted permutation by per-clause output-value positions, UNIQUE/ANY nulls, count, sum/min/max, '
          'no-hit default (context for several output clauses), contexts keyed by component names, no index panic on well-shaped tables. '
+         'The entry evaluation of this model is proved equal, three-valued and for every entry and input value (null included), to the FEEL `in` operator of the independently written evaluator model of C01 (C03_matching_is_feel_in, C03_rule_matches_is_feel_in, C03_feel_in_expression; coq/C03/LinkC01.v). '
          'The model is tied to decision_table.rs / builders.rs by evaluating thousands of generated tables through ModelEvaluator and comparing with the model evaluated by vm_compute.',
     note='Hypotheses of the refinement: well-shaped table (>=1 output clause, one entry per clause in every rule, several outputs named distinctly) and well-typed tuple '
          '(literals of an entry have the kind of the input value; null inputs are covered for entries made of literals and `-`; no null literal in the table: known finding null-literal-entry). Outside them (null inputs, ill-typed literals) only code = ImplModel is checked. '
